@@ -4,8 +4,11 @@ set -u
 NAME=$1; PROP=$2; TIER=${3:-quick}
 WT=/tmp/wts-$NAME-$$
 git -C /repo worktree add -q --detach $WT HEAD || exit 2
-# the run regenerates coq/Gen from the patched tree: put the committed files back afterwards
-trap 'git -C /repo worktree remove --force $WT; git -C /verif checkout -- coq/Gen 2>/dev/null' EXIT
+# the run regenerates coq/Gen from the patched tree and rewrites the property's evidence file: put both back afterwards
+# (evidence under /verif/evidence describes the UNCHANGED tree; the seeded run's record goes to /tmp)
+EVB=/tmp/try_seed.$$.evidence
+[ -f /verif/evidence/$PROP.json ] && cp /verif/evidence/$PROP.json $EVB
+trap 'git -C /repo worktree remove --force $WT; git -C /verif checkout -- coq/Gen 2>/dev/null; if [ -f $EVB ]; then cp /verif/evidence/$PROP.json /tmp/seed-evidence-$NAME.json 2>/dev/null; mv $EVB /verif/evidence/$PROP.json; fi' EXIT
 ( cd $WT && ( git apply /verif/seeded/$NAME/patch.diff 2>/dev/null || git apply -3 /verif/seeded/$NAME/patch.diff ) ) || { echo "PATCH-DOES-NOT-APPLY"; exit 3; }
 cd /verif && VERIF_REPO=$WT ./check $PROP --tier $TIER > /tmp/try_seed.$$.out 2>&1
 RC=$?
